@@ -76,6 +76,62 @@ def edgesOf (g : Graph) (n : Int) : List (Int × Int × Nat × Label) :=
 
 def numberOfNodes (g : Graph) : Nat := g.nodes.length
 
+/-! ### mutation, as networkx does it (values are immutable here: the new graph is returned) -/
+
+/-- dict-update merge of attribute records (`add_node` on an existing node) -/
+def mergeAttr (old new : NodeAttr) : NodeAttr :=
+  { symbol := new.symbol.orElse fun _ => old.symbol
+    labels := new.labels.orElse fun _ => old.labels
+    isLabeled := new.isLabeled.orElse fun _ => old.isLabeled
+    aam := new.aam.orElse fun _ => old.aam }
+
+/-- `graph.add_node(n, **attr)` -/
+def addNode (g : Graph) (n : Int) (a : NodeAttr) : Graph :=
+  if g.hasNode n then
+    { g with nodes := g.nodes.map fun x => if x.1 == n then (x.1, mergeAttr x.2 a) else x }
+  else { g with nodes := g.nodes ++ [(n, a)], adj := g.adj ++ [(n, [])] }
+
+/-- `MultiGraph.new_edge_key`: `len(keydict)`, incremented while in use -/
+def newKey (keys : List Nat) : Nat :=
+  let rec go : Nat → Nat → Nat
+    | 0, k => k
+    | fuel + 1, k => if keys.contains k then go fuel (k + 1) else k
+  go (keys.length + 1) keys.length
+
+/-- one direction of `add_edge`: update `u`'s adjacency row with neighbour `v` -/
+def addHalfEdge (multi : Bool) (row : List (Int × List (Nat × Label))) (v : Int) (key : Nat) (l : Label) :
+    List (Int × List (Nat × Label)) :=
+  if row.any (·.1 == v) then
+    row.map fun r =>
+      if r.1 == v then
+        (if multi then (r.1, r.2 ++ [(key, l)]) else (r.1, [(0, l)]))
+      else r
+  else row ++ [(v, [(key, l)])]
+
+/-- `graph.add_edge(u, v, bond=l)`: creates missing end nodes (without attributes); on a simple
+    graph an existing edge keeps its position and gets the new label; on a multigraph a new key -/
+def addEdge (g : Graph) (u v : Int) (l : Label) : Graph :=
+  let g := if g.hasNode u then g else g.addNode u {}
+  let g := if g.hasNode v then g else g.addNode v {}
+  let key := if g.multi then newKey ((g.edgeData u v).map (·.1)) else 0
+  let adj := g.adj.map fun r => if r.1 == u then (r.1, addHalfEdge g.multi r.2 v key l) else r
+  let adj := if u == v then adj else
+    adj.map fun r => if r.1 == v then (r.1, addHalfEdge g.multi r.2 u key l) else r
+  { g with adj := adj }
+
+/-- `graph.remove_node(n)` -/
+def removeNode (g : Graph) (n : Int) : Graph :=
+  { g with nodes := g.nodes.filter (·.1 != n)
+           adj := (g.adj.filter (·.1 != n)).map fun r => (r.1, r.2.filter (·.1 != n)) }
+
+/-- `graph.remove_edge(u, v)` on a simple graph -/
+def removeEdge (g : Graph) (u v : Int) : Graph :=
+  { g with adj := g.adj.map fun r =>
+      if r.1 == u then (r.1, r.2.filter (·.1 != v))
+      else if r.1 == v then (r.1, r.2.filter (·.1 != u)) else r }
+
+def maxId (g : Graph) : Int := g.nodeIds.foldl max (g.nodeIds.headD 0)
+
 end Graph
 
 /-! ### wire decoding / encoding -/
